@@ -338,7 +338,9 @@ func c07BuildLineageInner(count func(string), rng *hx.Rng, sp c07PrimSpec, base 
 	p.alhs[0] = sha256.Sum256(nil)
 	holder := store.NewTx(p.maxEnt, p.maxKey)
 	for id := uint64(1); id <= p.n; id++ {
+		leave := c07ExportEnter(st)
 		b, err := st.ExportTx(id, false, false, holder)
+		leave()
 		if err != nil {
 			if strings.Contains(err.Error(), "partially truncated") {
 				p.poison = true
@@ -1598,7 +1600,7 @@ func runC07(r *hx.Result, rng *hx.Rng, thorough bool, replay string) error {
 				sp.manyEvery = 2 + rng.Intn(5)
 			}
 		}
-		if only := os.Getenv("C07_ONLY"); (only == "truncate" && !sp.truncate) || only == "acks" {
+		if only := os.Getenv("C07_ONLY"); (only == "truncate" && !sp.truncate) || only == "acks" || only == "exporters" {
 			rng.Fork()
 			continue
 		}
@@ -1669,6 +1671,21 @@ func runC07(r *hx.Result, rng *hx.Rng, thorough bool, replay string) error {
 			return err
 		}
 	}
+	// several exporters on one primary while committers keep writing (c07cx.go); its own random stream, a function of
+	// the seed only: `C07_ONLY=exporters` re-runs this part alone
+	if only := os.Getenv("C07_ONLY"); !c07TooManyHangs() && (only == "" || only == "exporters") {
+		if err := c07ExportersPart(r, hx.NewRng(r.Seed*0x9E3779B97F4A7C15+0xC07E4B), thorough); err != nil {
+			return err
+		}
+		c07Lap("exporters")
+		if only == "exporters" {
+			mx, calls, over := c07ExportMeasure()
+			r.Extra["export_max_in_flight_per_store"] = mx
+			r.Extra["export_calls"] = calls
+			r.Extra["export_calls_overlapping_another"] = over
+			return nil
+		}
+	}
 	// acknowledgements only cover durable state: forked histories, a Synced replica on a crash-simulating file system,
 	// precommit / sync / allow / discard / re-replicate / restart / crash in any order (c07ack.go)
 	if !c07TooManyHangs() {
@@ -1701,6 +1718,12 @@ func runC07(r *hx.Result, rng *hx.Rng, thorough bool, replay string) error {
 			return err
 		}
 	}
+	{
+		mx, calls, over := c07ExportMeasure()
+		r.Extra["export_max_in_flight_per_store"] = mx
+		r.Extra["export_calls"] = calls
+		r.Extra["export_calls_overlapping_another"] = over
+	}
 	r.Extra["liveness_bound"] = c07Bound().String()
 	r.Extra["hangs"] = c07Hangs
 	if c07Hangs > 0 {
@@ -1712,7 +1735,9 @@ func runC07(r *hx.Result, rng *hx.Rng, thorough bool, replay string) error {
 		"alter.outcome.err:illegal", "primary.export.by-digest", "primary.tx.metadata", "primary.entry.kvmd", "primary.entry.empty-value",
 		"db.set-returned", "db.fetch.ok", "oracle.dualproof-verified", "oracle.queries-compared", "schedule.in-order.synced=true.ext=true.skip=false",
 		"acks.step.rep", "acks.step.sync", "acks.step.discard", "acks.step.allow", "acks.step.crash", "acks.step.restart", "acks.oracle.crash-image-reopened",
-		"acks.oracle.ack-survives-crash", "acks.replicate-returned"}
+		"acks.oracle.ack-survives-crash", "acks.replicate-returned",
+		"cx.export.calls", "cx.export.calls-while-another-in-flight", "cx.replica.reproduced-whole-history", "cx.value.beyond-scratch-size", "cx.value.below-scratch-size",
+		"cx.reference.with-values", "cx.reference.by-digest", "cx.tie.tx", "cx.primary.txs-committed-while-exporting"}
 	for _, k := range need {
 		if r.Distribution[k] == 0 {
 			r.Inconclusive = append(r.Inconclusive, "generator never produced "+k)
